@@ -222,6 +222,18 @@ func (s *KVStore) Deliver(key string, value []byte, deleted bool) {
 	}
 }
 
+// Announce calls the watch callback without changing the store: an announcement that conflicts with what the
+// store records for another subscriber (made by a node that had not seen that record yet; the store never
+// holds both).
+func (s *KVStore) Announce(key string, value []byte) {
+	s.mu.Lock()
+	ws := append([]func(string, []byte, bool){}, s.watchers...)
+	s.mu.Unlock()
+	if len(ws) > 0 {
+		ws[len(ws)-1](key, value, false)
+	}
+}
+
 var errInjected = errors.New("injected store failure")
 
 func NewKVStore() *KVStore { return &KVStore{Data: map[string][]byte{}} }
